@@ -12,6 +12,7 @@ import (
 
 	"github.com/juev/hledger-lsp/internal/ast"
 	"github.com/juev/hledger-lsp/internal/parser"
+	"github.com/juev/hledger-lsp/internal/verifhook"
 )
 
 const (
@@ -236,6 +237,8 @@ func (l *Loader) loadSingleInclude(
 	depth int,
 	result *ResolvedJournal,
 ) []LoadError {
+	verifhook.Point("include.load", includePath)
+	defer verifhook.Point("include.loaded", includePath)
 	var errors []LoadError
 	limits := l.getLimits()
 
